@@ -104,7 +104,11 @@ def run(rep: core.Report):
         raise AnalysisError("ThermalMotion._get_population: population expressions vanished")
     for r, e in pops:
         rep.instance("R19b", TD, "ThermalMotion._get_population", core.norm(core.src(r), 80), symalg.is_zero(sp.simplify(e - want_n))[0], f"the population is {e}, not the Bose-Einstein factor used by the sampler", line=r.lineno)
-    conds = [core.src(s.value) for s in ast.walk(gp) if isinstance(s, ast.Assign) and core.src(s.targets[0]) == "condition"]
+    # threshold on the temperature parameter (second parameter), whatever the local that holds it is called
+    tpar = gp.args.args[2].arg if len(gp.args.args) > 2 else "t"
+    conds = sorted({core.src(c).replace(tpar, "t") for c in ast.walk(gp) if isinstance(c, ast.Compare) and isinstance(c.left, ast.Name) and c.left.id == tpar and len(c.comparators) == 1 and isinstance(c.comparators[0], ast.Constant)})
+    if not conds:
+        raise AnalysisError("ThermalMotion._get_population: no threshold on the temperature found")
     rep.instance("R19b", TD, "ThermalMotion._get_population", f"condition = {conds}", conds == ["t > 0"],
                  f"the Bose-Einstein population is used only where {conds}: for temperatures between 0 and that threshold the mean-square displacements are those of T = 0, unlike the sampler's distribution", line=gp.lineno)
 
@@ -124,11 +128,29 @@ def run(rep: core.Report):
 
     v_ii, e_ii = first_ret(sii)
     v_ij, e_ij = first_ret(sij)
-    rep.instance("R19c", RD, "RandomDisplacements._solve_ii", f"returns {core.src(v_ii)}", symalg.same(e_ii, symalg.open_expr("u"))[0], "the q = -q+G contribution carries an extra factor", line=sii.lineno)
-    rep.instance("R19c", RD, "RandomDisplacements._solve_ij", f"returns {core.src(v_ij)}", symalg.same(e_ij, symalg.open_expr("u * np.sqrt(2)"))[0], "the conjugate-pair contribution is not multiplied by sqrt(2)", line=sij.lineno)
+    def acc_of(fn, v):
+        aug_ = {core.src(a.target) for a in ast.walk(fn) if isinstance(a, ast.AugAssign)}
+        nm = sorted({x.id for x in ast.walk(v) if isinstance(x, ast.Name) and x.id in aug_})
+        if len(nm) != 1:
+            raise AnalysisError(f"R19c: {fn.name} does not return its accumulator")
+        return nm[0]
+
+    a_ii, a_ij = acc_of(sii, v_ii), acc_of(sij, v_ij)
+    rep.instance("R19c", RD, "RandomDisplacements._solve_ii", f"returns {core.src(v_ii)}", symalg.same(e_ii, symalg.open_expr(a_ii))[0], "the q = -q+G contribution carries an extra factor", line=sii.lineno)
+    rep.instance("R19c", RD, "RandomDisplacements._solve_ij", f"returns {core.src(v_ij)}", symalg.same(e_ij, symalg.open_expr(f"{a_ij} * np.sqrt(2)"))[0], "the conjugate-pair contribution is not multiplied by sqrt(2)", line=sij.lineno)
     trj = symalg.OpenPyTranslator(where="RandomDisplacements._solve_ij")
     trj.summary(sij)
-    acc = trj.appends.get("aug:u", [])
+    # roles instead of names: the accumulator is the local that is augmented in the zip loop and returned, the phase
+    # is the last target of that loop
+    zl = [lp for lp in ast.walk(sij) if isinstance(lp, ast.For) and isinstance(lp.iter, ast.Call) and core.src(lp.iter.func) == "zip" and isinstance(lp.target, ast.Tuple)]
+    if len(zl) != 1:
+        raise AnalysisError("R19c: the loop over (variates, sigmas, eigenvectors, phases) vanished from _solve_ij")
+    phase_name = core.src(zl[0].target.elts[-1])
+    augd = {core.src(a.target) for a in ast.walk(zl[0]) if isinstance(a, ast.AugAssign)}
+    acc_names = [x.id for x in ast.walk(v_ij) if isinstance(x, ast.Name) and x.id in augd]
+    if len(set(acc_names)) != 1:
+        raise AnalysisError("R19c: the accumulator returned by _solve_ij is not the one augmented in the loop")
+    acc = trj.appends.get("aug:" + acc_names[0], [])
     parts = []
     for op, val in acc:
         part = getattr(val.func, "__name__", str(val.func)) if val.args else None
@@ -138,7 +160,7 @@ def run(rep: core.Report):
         has_phase = False
         if inner is not None:
             for f in sp.Mul.make_args(inner):
-                if f == sp.Symbol("phase"):
+                if f == sp.Symbol(phase_name):
                     has_phase = True
                 elif f.args and str(f.func).endswith("[]") and len(f.args) == 1 and f.args[0].is_Integer:
                     comp, base = int(f.args[0]), str(f.func)
@@ -147,6 +169,7 @@ def run(rep: core.Report):
     rep.instance("R19c", RD, "RandomDisplacements._solve_ij", f"u accumulates {[(o, p, c) for o, p, c, _, _ in parts]} of (variate * phase)", shape_ok,
                  "the two normal variates of a conjugate pair are not combined as Re(x0 phase) - Im(x1 phase) with the complex phase", line=sij.lineno)
     prep = core.find_def(RD, "RandomDisplacements._prepare")
+    core.require_names(prep, ["q"], f"{RD}::RandomDisplacements._prepare")
     trp = symalg.OpenPyTranslator(where="RandomDisplacements._prepare")
     trp.summary(prep)
     want = {
@@ -201,6 +224,7 @@ def _r19g(rep):
     # the valid-mode window and the per-atom outer product
     for qn in (f"{T}.run", f"{M}._get_disp_matrices"):
         fn = core.find_def(TD, qn)
+        core.require_names(fn, ["valid_indices", "fs" if qn.endswith(".run") else "freqs", "count"], f"{TD}::{qn}")
         first = [st for st in ast.walk(fn) if isinstance(st, ast.Assign) and core.src(st.targets[0]) == "valid_indices"]
         more = [st for st in ast.walk(fn) if isinstance(st, ast.AugAssign) and core.src(st.target) == "valid_indices"]
         fv = "fs" if qn.endswith(".run") else "freqs"
@@ -210,6 +234,7 @@ def _r19g(rep):
         ok_a = len(asserts) == 1 and symalg.same(symalg.open_expr(core.src(asserts[0].test.left)), symalg.open_expr("np.prod(self._iter_mesh.mesh_numbers)"))[0] and symalg.same(symalg.open_expr(core.src(asserts[0].test.comparators[0])), symalg.open_expr("count + 1"))[0]
         rep.instance("R19g", TD, qn, "count + 1 == number of grid points (unreduced mesh)", ok_a, "nothing ties the divisor to the number of grid points", line=fn.lineno, nontrivial=False)
     dm = core.find_def(TD, f"{M}._get_disp_matrices")
+    core.require_names(dm, ["c", "v", "m", "i"], f"{TD}::{M}._get_disp_matrices")
     cs = [st for st in ast.walk(dm) if isinstance(st, ast.Assign) and isinstance(st.targets[0], ast.Subscript) and core.src(st.targets[0].value) == "c"]
     ok_c = len(cs) == 1 and symalg.same(symalg.open_expr(core.src(cs[0].value)), symalg.open_expr("np.outer(v, v.conj()) / m"))[0] and core.src(cs[0].targets[0].slice) == "i"
     rep.instance("R19g", TD, f"{M}._get_disp_matrices", "c[i] = outer(e_i, conj(e_i)) / m_i", ok_c, "the per-atom matrix is not e e^dagger / m stored for atom i", line=dm.lineno)
